@@ -105,8 +105,13 @@ Lemma wf_kw_freq k : wf_kw k = true -> isNone (k_freq k) = false.
 Proof. unfold wf_kw. destruct (k_freq k); [reflexivity|discriminate]. Qed.
 
 (* ---- no DTSTART line: the start comes from dtstart= (or is absent) ---- *)
+(* what the keyword construction rrule(dtstart=start, **k) gives; when it fails, the class rrulestr
+   reports: the constructor's OverflowError (an hour / minute / second beyond 32 bits) becomes a
+   ValueError in _parse_rfc_rrule (fb1f638), every other class is passed on *)
 Definition single (ev : env) (cache : bool) (start : option dt) (k : kwargs) : result :=
-  match ctor ev start k with Ok r => RRule cache r | Err e => RErr e end.
+  match catch (ctor ev start k) [EOverflow] EValue with Ok r => RRule cache r | Err e => RErr e end.
+Lemma single_ok ev cache start k r : ctor ev start k = Ok r -> single ev cache start k = RRule cache r.
+Proof. unfold single. intros ->. reflexivity. Qed.
 
 Theorem rrulestr_value ev o c k : wf_kw k = true ->
   o_forceset o = false -> o_compatible o = false -> o_ignoretz o = false -> o_unfold o = false ->
